@@ -179,6 +179,10 @@ def step (env : Env) (line : String) : Env × Option String :=
   | some "cliaccepts" =>   -- cliaccepts <file> <c> <m> <e>  (1 = given)
     let g := fun (i : Nat) => toks[i]?.getD "0" == "1"
     (env, some ("OK " ++ (if Cli.accepts ⟨g 1, g 2, g 3, g 4⟩ then "accepted" else "usage-error")))
+  | some "dataeq" =>       -- dataeq <CodeData> | <CodeData>
+    match runP (do let a ← pCodeData; let _ ← next; let b ← pCodeData; pure (a, b)) (toks.extract 1 toks.size) with
+    | .ok (a, b) => (env, some ("OK " ++ (if CodeData.beq a b then "T" else "F")))
+    | .error e => (env, some ("PARSE " ++ e))
   | some "consteq" =>      -- consteq <const> | <const>
     match runP (do let a ← pConst; let _ ← next; let b ← pConst; pure (a, b)) (toks.extract 1 toks.size) with
     | .ok (a, b) => (env, some ("OK " ++ (if Const.keyEq a b then "T" else "F")))
